@@ -43,6 +43,9 @@ def setup(tt, S, seed):
     c.y = [torch.randn(Ry[k], N[k], Ry[k + 1], generator=gen, dtype=dt) for k in range(d)]
     Ra = [1] + [2] * (d - 1) + [1]
     c.A = [torch.randn(Ra[k], N[k], N[k], Ra[k + 1], generator=gen, dtype=dt) * 0.5 for k in range(d)]
+    if S.get("scale", "unit") == "tiny":            # all leaves of magnitude 1e-8: derivatives of norms stay O(1), values are tiny
+        c.x = [t * 1e-8 if k == 0 else t for k, t in enumerate(c.x)]
+        c.y = [t * 1e-8 if k == 0 else t for k, t in enumerate(c.y)]
     c.Q = torch.randn(N[0], N[0], generator=gen, dtype=dt)
     Rw = [1] + [2] * (d - 2) + [1]
     c.w = [torch.randn(Rw[k], N[k + 1], Rw[k + 1], generator=gen, dtype=dt) for k in range(d - 1)] if d >= 2 else None
@@ -218,8 +221,8 @@ def handler(st, opts):
     vd = eval_dense(c, xd, yd, body, head, red, wd)
     dl = {"x": xd, "x0": [xd[0]], "y": yd, "xy": xd + yd, "wx": (wd or []) + xd}[track]
     ref = torch.autograd.grad(vd, dl, allow_unused=True)
-    vscale = max(1.0, abs(vd.item()))
-    if abs(val.item() - vd.item()) > 1e-9 * vscale:
+    vscale = max(abs(vd.item()), 1e-300) if S.get("scale", "unit") == "tiny" else max(1.0, abs(vd.item()))
+    if abs(val.item() - vd.item()) > 1e-9 * vscale + 1e-20:        # (1e-20: cancellation noise floor for leaves of magnitude 1e-8)
         problems.append(P("value", "value %.12g differs from the dense program's %.12g" % (val.item(), vd.item())))
     if len(got) != len(leaves):
         problems.append(P("shape", "grad returned %d tensors for %d tracked cores" % (len(got), len(leaves))))
@@ -232,13 +235,13 @@ def handler(st, opts):
         if tuple(g.shape) != tuple(lf.shape):
             problems.append(P("shape", "gradient %d has shape %s, the core has %s" % (k, tuple(g.shape), tuple(lf.shape))))
             continue
-        sc = max(1.0, r.abs().max().item())
-        if (g - r).abs().max().item() > RTOL * sc:
+        sc = max(r.abs().max().item(), g.abs().max().item(), 1e-300) if S.get("scale", "unit") == "tiny" else max(1.0, r.abs().max().item())
+        if (g - r).abs().max().item() > RTOL * sc + 1e-20:
             problems.append(P("gradient", "gradient w.r.t. core %d differs from the dense derivative: max |diff| %.3g (scale %.3g)" % (
                 k, (g - r).abs().max().item(), sc)))
             break
     # central finite differences on two entries of the first tracked core (independent of autograd)
-    if not problems and opts.get("fd", True):
+    if not problems and opts.get("fd", True) and S.get("scale", "unit") == "unit":
         lf = leaves[0]
         flat = lf.detach().reshape(-1)
         for e in (0, flat.numel() - 1):
